@@ -148,11 +148,14 @@ def end_to_end(src, res):
     forms = {
         "def-default": envblock + "<%def name=\"g(z=" + src + ")\"><% keep(z) %></%def>${g()}",
         "page-default": envblock + "<%page args=\"z=" + src + "\"/><% keep(z) %>",
+        # a defaulted keyword-only parameter written BEFORE a required one, and the same on a nested def
+        "def-kwonly-default": envblock + "<%def name=\"g(*r_, z=" + src + ", y_)\"><% keep(z) %></%def>${g(y_=1)}",
+        "nested-def-kwonly-default": envblock + "<%def name=\"o_()\"><%def name=\"g(q_=0, *r_, z=" + src + ", y_, **k_)\"><% keep(z) %></%def>${g(y_=1)}</%def>${o_()}",
         "filter-arg": envblock + "${'t' | keep(" + src + ")}",
     }
     if '"' in src or "\n" in src:
-        forms.pop("def-default")
-        forms.pop("page-default")
+        for f_ in ("def-default", "page-default", "def-kwonly-default", "nested-def-kwonly-default"):
+            forms.pop(f_)
     for nd in ast.walk(top):
         if isinstance(nd, ast.FormattedValue) and any(
             isinstance(x, (ast.Lambda, ast.GeneratorExp)) or (isinstance(x, ast.Name) and x.id == "f") for x in ast.walk(nd.value)
